@@ -16,6 +16,10 @@ package dbft
 //@ runtags [C11]
 // C14: time enters only through the injected timer.
 //@ forbid [C14] wallclock
+// Clock readings are used only as differences (Sub), as the zero sentinel (IsZero) or turned into a payload / block
+// timestamp in nanoseconds (UnixNano, at the listed sites); no other view of absolute time (Unix, Day, Format, ...) is used.
+//@ forbid [C14] timeapi : (time.Time).Sub, (time.Time).IsZero, (time.Time).UnixNano
+//@ callers [C14] (time.Time).UnixNano : (*Context).getTimestamp, (*DBFT).checkChangeView, (*DBFT).sendChangeView, (*DBFT).sendRecoveryRequest
 
 // ---- interface getters: functions of the receiver (A2: payloads, blocks, keys are immutable) ----
 
@@ -413,7 +417,7 @@ package dbft
 //@   requires ts + self.TimestampIncrement <= 18446744073709551615
 //@   use INV
 //@   ensures self.ViewNumber == view
-//@   ensures [C05,C04,C12] @cleanProposal cleanProposal()
+//@   ensures [C05,C04,C12,C02,C01] @cleanProposal cleanProposal()
 //@   ensures [C05] @cleanHeight implies(view == 0, !self.blockProcessed && !self.preBlockProcessed && self.lastBlockTimestamp == ts)
 //@   ensures [C16,C05] @unsubscribed !self.txSubscriptionOn
 //@   ensures [C15,C05] @base self.lastBlockTimestamp == ts
@@ -524,6 +528,7 @@ package dbft
 //@   use U
 //@   use UNDECIDED
 //@   ensures [C10] @arms gTimerArms > old(gTimerArms)
+//@   ensures [C16,C14] @rttReference implies(gBroadcasts == old(gBroadcasts), unchanged(self.prepareSentTime))
 //@   ensures [C16] @forcedProposes implies(force || self.Config.MaxTimePerBlock == nil, gBroadcasts > old(gBroadcasts))
 //@   ensures [C16] @emptyWaitsMax implies(gBroadcasts == old(gBroadcasts), self.Config.MaxTimePerBlock != nil && !force && self.txSubscriptionOn
 //@        && gTimerD == self.maxTimePerBlock - self.timePerBlock && gTimerH == self.BlockIndex && gTimerV == self.ViewNumber && self.ViewNumber == old(self.ViewNumber))
